@@ -197,25 +197,32 @@ def _run_shard(shard, shard_seed, tier, outfile, hangfile, excluded):
             from hypothesis import given, settings, HealthCheck, seed as hseed
 
             n = shard.n if tier == "quick" else shard.n * shard.thorough_mult
-            cfg = settings(max_examples=n, database=None, deadline=None, derandomize=False,
-                           report_multiple_bugs=False,
-                           suppress_health_check=list(HealthCheck), print_blob=False)
+            # One Hypothesis run explores around the examples it happened to start with: with a few hundred examples
+            # whole regions of the strategy (one source AND a key function, say) can stay empty for a given seed.
+            # The budget is therefore spent in several independent runs, each with its own derived seed.
+            rounds = 1 if n < 90 else (3 if n < 3000 else 6)
+            for r in range(rounds):
+                cfg = settings(max_examples=n // rounds + (1 if r < n % rounds else 0), database=None, deadline=None,
+                               derandomize=False, report_multiple_bugs=False,
+                               suppress_health_check=list(HealthCheck), print_blob=False)
 
-            @hseed(shard_seed)
-            @cfg
-            @given(shard.strategy)
-            def test(case):
-                one(case)
+                @hseed(shard_seed + 7919 * r)
+                @cfg
+                @given(shard.strategy)
+                def test(case):
+                    one(case)
 
-            try:
-                test()
-            except Violation:
-                case, bucket, detail = failures[-1]
-                result["status"] = "violation"
-                result["violations"] = [{"bucket": bucket, "detail": detail, "case": case}]
-            except hypothesis.errors.Unsatisfiable as exc:
-                result["status"] = "error"
-                result["error"] = f"Unsatisfiable: {exc}"
+                try:
+                    test()
+                except Violation:
+                    case, bucket, detail = failures[-1]
+                    result["status"] = "violation"
+                    result["violations"] = [{"bucket": bucket, "detail": detail, "case": case}]
+                    break
+                except hypothesis.errors.Unsatisfiable as exc:
+                    result["status"] = "error"
+                    result["error"] = f"Unsatisfiable: {exc}"
+                    break
     except BaseException:  # noqa: B902
         result["status"] = "error"
         result["error"] = traceback.format_exc()[-4000:]
